@@ -1,4 +1,4 @@
-(** * Report: Powertrain.snapshot (as repaired by the D14 fix commit) and export_time_variables over a recorded history,
+(** * Report: Powertrain.snapshot (as repaired by the D14 and D16 fix commits) and export_time_variables over a recorded history,
     operation for operation, generic in the arithmetic.  The recorded history is an input: per element, its insertion-ordered
     dictionary of time variables.  No proofs here. *)
 From Coq Require Import ZArith QArith String List Bool PrimFloat.
@@ -109,10 +109,16 @@ Definition snapshot (times : list qty) (els : list erec) (req : option (list str
       if bad then Err ValueError else
       let vs := sorted_vars (match req with None => valid | Some r => r end) in
       ts <- times_in times "sec" ;; tt <- q_to target "sec" ;;
+      (* as repaired by the D16 fix commit: the range check above is tolerance based, so the target in seconds is clamped into the
+         simulated interval before interpolating (Python's min / max: the first of equal arguments) *)
+      let lo := fold_left (fun m x => if ltb x m then x else m) ts (hd zero ts) in
+      let hi := fold_left (fun m x => if ltb m x then x else m) ts (hd zero ts) in
+      let t1 := if ltb (qv tt) lo then lo else qv tt in
+      let t2 := if ltb hi t1 then hi else t1 in
       rows <- (fix go (l : list erec) : res (list (string * list (option (num A)))) :=
                  match l with
                  | [] => Ok []
-                 | e :: l' => c <- cells ts us e vs (qv tt) ;; r <- go l' ;;
+                 | e :: l' => c <- cells ts us e vs t2 ;; r <- go l' ;;
                               Ok (if existsb (fun o => match o with Some _ => true | None => false end) c then (er_name e, c) :: r else r)
                  end) els ;;
       Ok (map (column_name us) vs, rows)
